@@ -157,5 +157,10 @@ fixed("C13", "49b28d9", ["c13:e2e:%s:%s:connection-not-failed" % (p, sc) for p i
 fixed("C13", "08408ec", ["c13:e2e:transferred-tls:%s:connection-not-failed" % sc for sc in ("rsv2", "rsv3", "reserved-opcode-3", "reserved-opcode-11", "fragmented-ping", "ping-126", "continuation-without-start", "text-inside-fragmented", "length-top-bit")],
       "TLS connection transferred to the poller by UpgradeAndTransferConnToPoller: the data handler tests the wrong error variable, a Parse error does not fail the connection (phase e2e)")
 
+fixed("C08", "49b28d9", ["c08:e2e:%s:%s:%s" % (p, sc, k) for p in ("blocking", "mixed") for sc in ("content-length-negative", "content-length-non-numeric", "transfer-encoding-unsupported", "transfer-encoding-repeated", "chunk-size-non-hex", "chunk-size-overflow", "chunk-data-missing-crlf", "header-line-bare-lf") for k in ("connection-not-closed", "handler-ran-for-malformed-request", "request-after-error-served")],
+      "IOModBlocking / blocking part of IOModMixed, plain connections: readConnBlocking ignores the error returned by Parse; the connection stays open after a malformed request and the bytes that follow are parsed from the stale state (the handler runs for the malformed request when it is written byte by byte) (phase e2e)")
+fixed("C08", "46079e1", ["c08:framing-accepted:non-hex-chunk-size"] + ["c08:e2e:%s:chunk-size-non-hex:handler-ran-for-malformed-request" % p for p in ("nonblocking", "nonblocking-tls", "blocking", "blocking-tls", "mixed", "mixed-tls")],
+      "chunk-size lines '5g', '5xyz', '0x5', '5=a': the size is cut at the first non-hex character and the rest of the line ignored - a non-hex chunk size is guessed as 5 / 0 (net/http rejects: invalid byte in chunk length)")
+
 json.dump(F, open("/verif/known_findings.json", "w"), indent=1)
 print("wrote %d entries (%d known)" % (len(F), sum(1 for f in F if f["status"] == "known")))
